@@ -495,7 +495,7 @@ theorem pow256_1 : 256 ^ 1 = 256 := by decide
 
 /-- The unmarshallers of the 13 basic types on the specification encoding of a well-formed value. -/
 theorem unmarshalBasic_enc (le : Bool) (hv : HVal) (hwf : hv.wf = true) (off : Nat) (rest : Bytes)
-    (fds : Option (List Int)) (hfd : hv.ty = .h → fds ≠ none) :
+    (fds : Option (List PyVal)) (hfd : hv.ty = .h → fds ≠ none) :
     unmarshalBasic le hv.ty ⟨off, encValue (endianOf le) hv ++ rest⟩ fds =
       .ok ((encValue (endianOf le) hv).length, pyOf fds hv) := by
   cases hv with
@@ -560,7 +560,7 @@ theorem ofCode_code (c : Basic) : Basic.ofCode? c.code = some c := by cases c <;
 
 /-- `unmarshal_variant` on the specification encoding of a variant that holds a well-formed basic value. -/
 theorem unmarshalVariant_enc (A : Char → Nat) (hA : AlignOK A) (le : Bool) (hv : HVal) (hwf : hv.wf = true)
-    (off : Nat) (rest : Bytes) (fds : Option (List Int)) (hfd : hv.ty = .h → fds ≠ none) :
+    (off : Nat) (rest : Bytes) (fds : Option (List PyVal)) (hfd : hv.ty = .h → fds ≠ none) :
     unmarshalVariant A le ⟨off, encVariant (endianOf le) off hv ++ rest⟩ fds =
       .ok ((encVariant (endianOf le) off hv).length, pyOf fds hv) := by
   have hal := hA.basic hv.ty
@@ -579,7 +579,7 @@ theorem unmarshalVariant_enc (A : Char → Nat) (hA : AlignOK A) (le : Bool) (hv
   omega
 
 theorem unmarshalStructYV_enc (A : Char → Nat) (hA : AlignOK A) (le : Bool) (f : Field) (hwf : Field.wf f = true)
-    (off : Nat) (rest : Bytes) (fds : Option (List Int)) (hfd : f.2.ty = .h → fds ≠ none) :
+    (off : Nat) (rest : Bytes) (fds : Option (List PyVal)) (hfd : f.2.ty = .h → fds ≠ none) :
     unmarshalStructYV A le ⟨off, UInt8.ofNat f.1 :: encVariant (endianOf le) (off + 1) f.2 ++ rest⟩ fds =
       .ok (1 + (encVariant (endianOf le) (off + 1) f.2).length, (f.1, pyOf fds f.2)) := by
   simp only [Field.wf, Bool.and_eq_true, decide_eq_true_eq] at hwf
@@ -604,7 +604,7 @@ theorem unmarshalStructYV_enc (A : Char → Nat) (hA : AlignOK A) (le : Bool) (f
   omega
 
 
-theorem unmarshalItems_enc (A : Char → Nat) (hA : AlignOK A) (le : Bool) (fds : Option (List Int)) :
+theorem unmarshalItems_enc (A : Char → Nat) (hA : AlignOK A) (le : Bool) (fds : Option (List PyVal)) :
     ∀ (fs : List Field) (fuel off : Nat) (rest : Bytes),
     fs.all Field.wf = true → (∀ f ∈ fs, f.2.ty = .h → fds ≠ none) → fs.length < fuel →
     unmarshalItems A le fds fuel ⟨off, encFields (endianOf le) off fs ++ rest⟩
@@ -658,7 +658,7 @@ theorem unmarshalItems_enc (A : Char → Nat) (hA : AlignOK A) (le : Bool) (fds 
       simp
 
 
-theorem unmarshalArrayYV_enc (A : Char → Nat) (hA : AlignOK A) (le : Bool) (fds : Option (List Int))
+theorem unmarshalArrayYV_enc (A : Char → Nat) (hA : AlignOK A) (le : Bool) (fds : Option (List PyVal))
     (fs : List Field) (rest : Bytes) (hwf : fs.all Field.wf = true) (hfd : ∀ f ∈ fs, f.2.ty = .h → fds ≠ none)
     (hl : (encFields (endianOf le) 16 fs).length < 4294967296) :
     unmarshalArrayYV A le ⟨12, encUInt (endianOf le) 4 (encFields (endianOf le) 16 fs).length ++
@@ -680,7 +680,7 @@ theorem unmarshalArrayYV_enc (A : Char → Nat) (hA : AlignOK A) (le : Bool) (fd
   omega
 
 /-- `unmarshal('yyyyuua(yv)', raw, 0, lendian, oobFDs)` on the specification encoding of an encodable message. -/
-theorem unmarshalHeader_enc (A : Char → Nat) (hA : AlignOK A) (le : Bool) (fds : Option (List Int)) (m : SpecMsg)
+theorem unmarshalHeader_enc (A : Char → Nat) (hA : AlignOK A) (le : Bool) (fds : Option (List PyVal)) (m : SpecMsg)
     (he : m.endian = endianOf le) (hv : m.encodable = true) (hfd : ∀ f ∈ m.fields, f.2.ty = .h → fds ≠ none) :
     unmarshalHeader A le (Spec.encodeMsg m) fds =
       .ok ⟨16 + (Spec.fieldArray m).length, (Spec.endianByte m.endian).toNat, m.mtype, m.flags, Spec.version,
